@@ -17,6 +17,8 @@ pub enum WStep {
     /// `Ok(0)`: `write_all` turns this into a `WriteZero` error.
     Zero,
     Fail(ErrorKind),
+    /// Fail with `io::Error::from_raw_os_error(code)` (ENOSPC, EIO, EPIPE, ...).
+    FailOs(i32),
     /// Claim more bytes than offered were written (nothing is accepted).
     Lie(usize),
     Panic,
@@ -71,6 +73,8 @@ pub struct SinkCounters {
 pub const CALL_BUDGET: u64 = 20_000_000;
 
 pub struct SinkState {
+    /// raw OS code of the most recent failure, if it was an OS error (taken by the checker)
+    pub last_os_error: std::cell::Cell<Option<i32>>,
     pub budget_exceeded: bool,
     pub cfg: SinkCfg,
     step_idx: usize,
@@ -93,6 +97,7 @@ pub struct SimSink(pub Rc<RefCell<SinkState>>);
 impl SimSink {
     pub fn new(cfg: SinkCfg) -> Self {
         SimSink(Rc::new(RefCell::new(SinkState {
+            last_os_error: std::cell::Cell::new(None),
             budget_exceeded: false,
             cfg,
             step_idx: 0,
@@ -163,10 +168,18 @@ impl Write for SimSink {
             WStep::Fail(kind) => {
                 st.c.errors += 1;
                 st.fail_seq += 1;
+                st.last_os_error.set(None);
                 (
                     WRes::Err(kind),
                     Err(io::Error::new(kind, SinkState::fail_msg(st.fail_seq))),
                 )
+            }
+            WStep::FailOs(code) => {
+                st.c.errors += 1;
+                st.fail_seq += 1;
+                let e = io::Error::from_raw_os_error(code);
+                st.last_os_error.set(Some(code));
+                (WRes::Err(e.kind()), Err(e))
             }
             WStep::Lie(extra) => {
                 st.c.lies += 1;
@@ -244,6 +257,7 @@ pub fn gen_sink(rng: &mut Rng, class: u8) -> SinkCfg {
                     0 => WStep::Accept,
                     1 => WStep::Short(1 + rng.small(40)),
                     2 => WStep::Interrupted,
+                    3 if rng.chance(1, 3) => WStep::FailOs(*rng.pick(&crate::source::OS_CODES)),
                     3 => WStep::Fail(*rng.pick(&ERR_KINDS)),
                     4 => WStep::Zero,
                     5 => WStep::Lie(1 + rng.small(5)),
@@ -252,7 +266,7 @@ pub fn gen_sink(rng: &mut Rng, class: u8) -> SinkCfg {
             }
             if !steps
                 .iter()
-                .any(|s| matches!(s, WStep::Fail(_) | WStep::Zero | WStep::Lie(_) | WStep::Panic))
+                .any(|s| matches!(s, WStep::Fail(_) | WStep::FailOs(_) | WStep::Zero | WStep::Lie(_) | WStep::Panic))
             {
                 let at = rng.below(steps.len() + 1);
                 steps.insert(at, WStep::Fail(*rng.pick(&ERR_KINDS)));
@@ -273,6 +287,7 @@ pub fn wstep_to_string(s: &WStep) -> String {
         WStep::Interrupted => "i".into(),
         WStep::Zero => "z".into(),
         WStep::Fail(k) => format!("e{}", kind_name(*k)),
+        WStep::FailOs(c) => format!("o{c}"),
         WStep::Lie(n) => format!("l{n}"),
         WStep::Panic => "p".into(),
     }
@@ -286,6 +301,7 @@ pub fn wstep_from_str(s: &str) -> Option<WStep> {
         "i" => WStep::Interrupted,
         "z" => WStep::Zero,
         "e" => WStep::Fail(kind_from_name(t)?),
+        "o" => WStep::FailOs(t.parse().ok()?),
         "l" => WStep::Lie(t.parse().ok()?),
         "p" => WStep::Panic,
         _ => return None,
